@@ -19,7 +19,7 @@ import subprocess
 import sys
 import sysconfig
 import time
-from fractions import Fraction
+from fractions import Fraction  # noqa
 
 VERIF = os.path.dirname(os.path.dirname(os.path.abspath(__file__)))
 REPO = os.environ.get("WNTR_REPO", "/repo")
@@ -220,26 +220,14 @@ def theorem_line(vfile, line):
 
 
 def parse_assumptions(out):
-    """Parse the output of a Property.v compile: for each `Print Assumptions`
-    return the list of axioms. Returns (n_closed, axioms set)."""
+    """Parse the output of a Property.v compile (Print Assumptions blocks).
+    Returns (number of closed theorems, sorted list of axiom names)."""
     axioms = set()
     closed = out.count("Closed under the global context")
-    for blk in re.findall(r"Axioms:\n((?:.+\n?)+?)(?=\n\S|\Z)", out):
-        for m in re.finditer(r"^(\S+)\s*:", blk, re.M):
-            axioms.add(m.group(1))
-    # simpler robust pass: any line "name : type" following "Axioms:" until blank
-    cur = False
     for ln in out.splitlines():
-        if ln.startswith("Axioms:"):
-            cur = True
-            continue
-        if cur:
-            m = re.match(r"^([A-Za-z_][\w.']*)\s*:", ln)
-            if m:
-                axioms.add(m.group(1))
-            elif ln.strip() == "" or not ln.startswith(" "):
-                if not re.match(r"^\s", ln):
-                    cur = False
+        m = re.match(r"^([A-Za-z_][\w']*(?:\.[\w']+)+)\s*(:|$)", ln)
+        if m:
+            axioms.add(m.group(1))
     return closed, sorted(axioms)
 
 
@@ -444,7 +432,7 @@ def check_property_file(run, relpath, deps_ok=True):
 # ----------------------------------------------------------------------------
 # case files: one Coq proposition per case, decided inside coqc
 # ----------------------------------------------------------------------------
-def run_prop_cases(prefix, header, tactic, cases, shard=300, timeout=1200):
+def run_prop_cases(prefix, header, tactic, cases, shard=300, timeout=1200, case_timeout=None):
     """cases: list of (int id, coq proposition text).  Each proposition is
     attempted with `tactic` inside coqc; returns ({id: True|False}, errors).
     A case that is absent from the output (file failed to compile) is reported
@@ -455,7 +443,8 @@ def run_prop_cases(prefix, header, tactic, cases, shard=300, timeout=1200):
         chunk = cases[k:k + shard]
         name = os.path.join(CASES, "%s_%03d.v" % (prefix, k // shard))
         body = [header,
-                'Ltac ck n P := first [ assert P by (%s); idtac "CASE" n "OK" | idtac "CASE" n "BAD" ].' % tactic,
+                'Ltac ck n P := first [ assert P by (%s); idtac "CASE" n "OK" | idtac "CASE" n "BAD" ].' %
+                (("timeout %d (%s)" % (case_timeout, tactic)) if case_timeout else tactic),
                 "Goal True."]
         for cid, prop in chunk:
             body.append("ck %d%%Z (%s)." % (cid, prop))
